@@ -124,7 +124,9 @@ class Universe:
         for t in self.ship_types:
             self.types[t] = self.gen_type(r.choice(self.groups), int(TC.ship), allow_effects=('passive',))
         for t in self.module_types:
-            self.types[t] = self.gen_type(r.choice(self.groups), int(TC.module),
+            # now and then a module type of a penalty-immune category (stacking penalty immunity is by category)
+            mcat = int(TC.module) if r.random() < 0.85 else int(r.choice([TC.implant, TC.charge, TC.subsystem, TC.ship]))
+            self.types[t] = self.gen_type(r.choice(self.groups), mcat,
                                           allow_effects=('passive', 'online', 'active', 'target', 'overload', 'buff',
                                                          'turret'))
         for t in self.charge_types:
@@ -240,7 +242,8 @@ class Universe:
         mods = self.gen_mods(cat, r.randint(1, 3) if cat == int(EC.target) else r.randint(0, 3))
         resist = None
         if cat == int(EC.target) and mods and all(m['domain'] == int(D.target) for m in mods) and r.random() < 0.5:
-            resist = r.choice(self.base_attrs)
+            # a resistance attribute may itself be modified (its changes must be followed)
+            resist = r.choice(self.base_attrs + self.gen_attrs[:4])
         chance = r.choice(self.base_attrs) if (cat == int(EC.passive) and r.random() < 0.2) else None
         return dict(cat=cat, chance=chance, resist=resist, mods=mods)
 
